@@ -7,18 +7,20 @@ before `InsertLog` touches the `logs` table.
 namespace Ledger.Ctrl
 open Ledger.Base Ledger.Core
 
+theorem commitTransaction_logs (now : Time) (t : TxIn) (d : Db) (sq : Seqs) (x : Tx × Db)
+    (h : (commitTransaction now t d sq).2 = .ok x) : x.2.logs = d.logs := by
+  unfold commitTransaction at h
+  cases hid : t.id <;> simp only [hid] at h <;> split at h <;> (try split at h) <;>
+    first | (cases h; rfl) | cases h
+
 theorem exec_quiet_logs (now : Time) (c : Call) (d : Db) (sq : Seqs) (hq : c.Quiet) :
     ∀ sq' r d', exec now c d sq = (sq', .ok (r, d')) → d'.logs = d.logs := by
   intro sq' r d' he
   cases c with
   | insertLog l => exact hq.elim
   | commitTransaction t =>
-    simp only [exec, commitTransaction] at he
-    split at he
-    · cases he
-    · split at he
-      · cases he
-      · cases he; rfl
+    simp only [exec] at he
+    exact commitTransaction_logs now t d sq (r, d') (by rw [he])
   | revertTransaction id w =>
     simp only [exec, revertTransaction, Prod.mk.injEq] at he
     obtain ⟨_, he⟩ := he
@@ -69,25 +71,43 @@ structure Appended (now : Time) (ik ihash sv : String) (st0 st : RunSt) (log : L
   sv : log.schemaVersion = sv
   date : log.date = now
 
+theorem run_insertLog_ok (now : Time) (hn : String) (f : Option Fault) (ik ihash sv : String)
+    (p : Payload) (st2 st : RunSt) (log : Log)
+    (h : run now hn f (Prog.call (Call.insertLog { payload := p, ik := ik, ihash := ihash, schemaVersion := sv })
+          Prog.pure) st2 = (.ok log, st)) :
+    Appended now ik ihash sv st2 st log ∧ log.payload = p := by
+  simp only [run] at h
+  split at h
+  · cases h
+  · split at h
+    · cases h
+    · rename_i sq r d heq
+      simp only [exec, insertLog] at heq
+      simp only [Prod.mk.injEq, Except.ok.injEq] at h
+      obtain ⟨rfl, rfl⟩ := h
+      split at heq
+      · simp only [Prod.mk.injEq] at heq; exact nomatch heq.2
+      · split at heq
+        · simp only [Prod.mk.injEq] at heq; exact nomatch heq.2
+        · simp only [Prod.mk.injEq, Except.ok.injEq] at heq
+          obtain ⟨_, rfl, rfl⟩ := heq
+          exact ⟨⟨rfl, rfl, rfl, rfl, rfl⟩, rfl⟩
+
 theorem run_logPhase_ok (now : Time) (hn : String) (f : Option Fault) (strict : Bool) (ik ihash sv : String)
     (schema : Option Schema) (p : Payload) (st2 st : RunSt) (log : Log)
     (h : run now hn f (logPhase strict ik ihash sv schema p) st2 = (.ok log, st)) :
     Appended now ik ihash sv st2 st log ∧ log.payload = p := by
   unfold logPhase at h
-  simp only at h
-  split at h
-  · simp only [run] at h; cases h
-  · simp only [run] at h
-    split at h
-    · cases h
-    · simp only [exec, insertLog] at h
-      split at h
-      · cases h
-      · split at h
-        · cases h
-        · simp only [Prod.mk.injEq, Except.ok.injEq] at h
-          obtain ⟨rfl, rfl⟩ := h
-          exact ⟨⟨rfl, rfl, rfl, rfl, rfl⟩, rfl⟩
+  cases schema with
+  | none =>
+    simp only [Bool.false_eq_true, ↓reduceIte] at h
+    exact run_insertLog_ok now hn f ik ihash sv p st2 st log h
+  | some sc =>
+    simp only at h
+    by_cases hb : (strict && !validPayload sc p) = true
+    · rw [if_pos hb] at h; simp only [run] at h; cases h
+    · rw [if_neg hb] at h
+      exact run_insertLog_ok now hn f ik ihash sv p st2 st log h
 
 theorem run_runLog_ok (now : Time) (hn : String) (f : Option Fault) (strict : Bool) (kind : OpKind)
     (ik ihash sv : String) (n : Nat) (st0 st : RunSt) (log : Log)
